@@ -138,8 +138,11 @@ class Ctx:
         else:
             if i >= self.x.max_depth:
                 raise Inconclusive(f"decision depth {i} exceeds bound {self.x.max_depth}")
-            t = self._feasible(e)
-            f = self._feasible(z3.Not(e))
+            if self.x.fork_check:
+                t = self._feasible(e)
+                f = self._feasible(z3.Not(e))
+            else:  # over-approximate: both sides scheduled, infeasible paths are vacuous (sound)
+                t = f = True
             if t and f:
                 d = True
                 self.x.pending.append(self.decisions + [False])
@@ -236,13 +239,19 @@ class Ctx:
         if self.models:
             self.x.witnessed[label] = self.x.witnessed.get(label, 0) + 1
             return
+        if self.x.witness_timeout_ms:
+            self.solver.set("timeout", self.x.witness_timeout_ms)
         r = self._check()
+        if self.x.witness_timeout_ms:
+            self.solver.set("timeout", self.x.query_timeout_ms)
         if r == z3.sat:
             self.x.witnessed[label] = self.x.witnessed.get(label, 0) + 1
         elif r == z3.unsat:
             raise PathAbort("path condition unsatisfiable at witness point")
         else:
             self.x.witness_unknown += 1
+            self.x.witnessed.setdefault(label + "(reachability unknown)", 0)
+            self.x.witnessed[label + "(reachability unknown)"] += 1
 
     def sample(self, obj):
         if len(self.x.samples) < self.x.max_samples:
@@ -272,7 +281,8 @@ def _flat(c):
 
 class Explorer:
     def __init__(self, name, max_paths=200000, max_depth=400, query_timeout_ms=60000,
-                 wall_budget_s=None, max_samples=3, witness_all=False):
+                 wall_budget_s=None, max_samples=3, witness_all=False, fork_check=True,
+                 witness_timeout_ms=None):
         self.name = name
         self.max_paths = max_paths
         self.max_depth = max_depth
@@ -292,6 +302,9 @@ class Explorer:
         self.witnessed = {}
         self.witness_unknown = 0
         self.witness_all = witness_all
+        self.fork_check = fork_check
+        self.stop_after_candidates = 8
+        self.witness_timeout_ms = witness_timeout_ms
         self.samples = []
         self.max_samples = max_samples
         self.violations = []
@@ -336,6 +349,9 @@ class Explorer:
                 for n in ctx.notes:
                     self.notes[n] = self.notes.get(n, 0) + 1
             if len(self.inconclusive) > 20:
+                break
+            if getattr(self, "n_candidates", 0) >= self.stop_after_candidates:
+                self.notes["stopped_after_candidates"] = self.n_candidates
                 break
         self.wall_s = time.time() - t0
         return self
